@@ -227,6 +227,78 @@ ONES = ('one', 'mont_one', 'SM9_MODP_MONT_ONE', 'SM2_MODP_MONT_ONE')
 ZEROS = ('zero', 'SM9_ZERO', 'SM2_ZERO')
 
 
+INV_ARGS = []
+
+
+def l_norm(level, a):
+    """norm of a = sum a_i g^i down to the level below (g^k = gamma): a is invertible iff the norm is non-zero"""
+    k, gamma, _ = LEVELS[level]
+    if k == 2:
+        return a[0] * a[0] - gamma * a[1] * a[1]
+    return a[0] * a[0] * a[0] + gamma * a[1] * a[1] * a[1] + gamma * gamma * a[2] * a[2] * a[2] - (gamma * a[0] * a[1] * a[2]).scale(3)
+
+
+def p_prop(a, b):
+    """a == c * b for a non-zero constant c"""
+    if not a or not b or len(a) != len(b):
+        return False
+    m0 = next(iter(b))
+    if m0 not in a:
+        return False
+    c = a[m0] / b[m0]
+    return all(m in a and a[m] == c * cb for m, cb in b.items())
+
+
+def p_divides(d, p):
+    """exact multivariate division: does d divide p?  (lexicographic leading terms; both over the rationals)"""
+    if not d:
+        return False
+    vars_ = sorted({v for m in list(d) + list(p) for v, _ in m})
+
+    def key(m):
+        dm = dict(m)
+        return tuple(dm.get(v, 0) for v in vars_)
+    lt_d = max(d, key=key)
+    kd = key(lt_d)
+    p = dict(p)
+    steps = 0
+    while p:
+        steps += 1
+        if steps > 20000:
+            raise Undecided('division too long')
+        lt_p = max(p, key=key)
+        kp = key(lt_p)
+        if any(a < b for a, b in zip(kp, kd)):
+            return False
+        qm = tuple((v, a - b) for v, a, b in zip(vars_, kp, kd) if a - b)
+        qc = p[lt_p] / d[lt_d]
+        p = p_add(p, p_mul({qm: qc}, d), -1)
+    return True
+
+
+def domain_ok(level, D, A, nonzero):
+    """the inverted expression D vanishes only where the operand A is not invertible or where a quantity the path has tested
+    to be non-zero vanishes: zero-set(D) is inside zero-set(Norm(A) * product of tested operands), decided as
+    D divides (Norm(A) * product)^k for some k <= 3 (sufficient; necessary too over an algebraically closed field for large k)"""
+    if D.d != p_const(1) and len(D.d) != 1:
+        return False
+    if not D.n:
+        return False
+    if all(not m for m in D.n):
+        return True                    # a non-zero constant
+    base = l_norm(level, A)
+    for v in sorted(nonzero):
+        base = base * Rat.var(v)
+    if not base.n:
+        return False
+    pw = base.n
+    for k in (1, 2, 3):
+        if p_divides(D.n, pw):
+            return True
+        pw = p_mul(pw, base.n)
+    return False
+
+
 def evaluate(e, level, cache=None):
     """rational function denoted by an expression over the ring operations of the level below `level`"""
     name, args = e
@@ -265,8 +337,10 @@ def evaluate(e, level, cache=None):
     if ln == 'fp_sqr' and len(a) == 1:
         return a[0] * a[0]
     if ln == 'fp_inv' and len(a) == 1:
+        INV_ARGS.append(a[0])
         return a[0].inv()
     if ln == 'div' and len(a) == 2:
+        INV_ARGS.append(a[1])
         return a[0] * a[1].inv()
     if gen_ops and ln == gen_ops[0] and len(a) == 1:
         return a[0] * Rat.var(sym)
@@ -357,6 +431,7 @@ def a_poly(cx, rule, floor, levels=('Fp2', 'Fp4', 'Fp12')):
         k = LEVELS[lv][0]
         bad = None
         paths = 0
+        dom_bad = []
         try:
             for rv, st in zip(ef.ret_vals, ef.final_states):
                 paths += 1
@@ -379,7 +454,19 @@ def a_poly(cx, rule, floor, levels=('Fp2', 'Fp4', 'Fp12')):
                     continue
                 if not isinstance(rv, list) or len(rv) != k:
                     raise Undecided('the returned value is not built coordinate by coordinate (%s)' % ef.show(rv)[:80])
+                del INV_ARGS[:]
                 got = [evaluate(parse(ef.show(x)), lv).subst_zero(zs) for x in rv]
+                inv_args = list(INV_ARGS)
+                if isinstance(sp, tuple) and sp[0] in ('inverse-of', 'quotient') and not all(x.subst_zero(zs).is_zero() for x in sp[-1]):
+                    # domain: the formula is the inverse only where every inverted sub-expression is non-zero
+                    a_dom = [x.subst_zero(zs) for x in sp[-1]]
+                    nzs = set(st.get('#nonzero', ()))
+                    for D in inv_args:
+                        Dz = D.subst_zero(zs)
+                        if not domain_ok(lv, Dz, a_dom, nzs):
+                            dom_bad.append('%s inverts an expression that can vanish for an invertible operand%s (it does not divide a power of the operand\'s norm times the operands tested non-zero on this path%s): the inner inverse of 0 yields 0 and the result is not the inverse'
+                                           % (inst, (' on the path where %s = 0' % sorted(zs)) if zs else '', (' %s' % sorted(nzs)) if nzs else ''))
+                            break
                 if isinstance(sp, tuple) and sp[0] == 'inverse-of':
                     a = [x.subst_zero(zs) for x in sp[1]]
                     if all(x.is_zero() for x in a):
@@ -406,6 +493,9 @@ def a_poly(cx, rule, floor, levels=('Fp2', 'Fp4', 'Fp12')):
             continue
         cx.add(rule, inst, bad is None and paths > 0,
                '%s equals its defining formula in %s as a rational function of the operand coordinates on all %d return path(s)%s' % (inst, lv, paths, '' if bad is None else ': ' + bad), fn.loc())
+        if isinstance(sp, tuple) and sp[0] in ('inverse-of', 'quotient') and paths > 0:
+            cx.add(rule, inst + '/domain', not dom_bad,
+                   '%s: on every return path the inverted sub-expressions vanish only where the operand is not invertible or where a tested-non-zero operand vanishes%s' % (inst, '' if not dom_bad else ': ' + dom_bad[0]), fn.loc())
     cx.floor(rule, 'functions', n, floor, 'extension-field functions compared with their defining formula')
 
 
@@ -436,6 +526,9 @@ def _mk_polyflow():
                 if on_true:
                     st = dict(st)
                     st['#zero'] = tuple(sorted(set(st.get('#zero', ())) | {v[len('is_zero('):-1]}))
+                elif on_false:
+                    st = dict(st)
+                    st['#nonzero'] = tuple(sorted(set(st.get('#nonzero', ())) | {v[len('is_zero('):-1]}))
                 return st
             import re as _re
             m = _re.match(r'^(eq|ne)\((\$[A-Za-z0-9_.]+), (one\(\)|mont_one\(\)|[A-Z0-9_]*MONT_ONE)\)$', v) if isinstance(v, str) else None
